@@ -385,15 +385,21 @@ def run_sampling(ctx):
                     good = True
         req(ctx, rule, "%s:%s:top-bit" % (rule, ft.id), good and len(medge) == 1, "value[31] &= 0x7f exactly when mask_top_bit",
             "Field255::try_from_bytes does not clear bit 255 under mask_top_bit", loc=ft.loc)
+        # the two accumulators are identified by what feeds them (ct_lt / ct_gt), not by their names
+        ors = [c for bi, c in calls_named(ctx, ft, "bitor_assign")]
+        lts = [c for c in ors if Mentions(Call("ct_lt"))(c[2][1])]
+        gts = [c for c in ors if Mentions(Call("ct_gt"))(c[2][1])]
+        LT = Same(lts[0][2][0]) if len(lts) == 1 else (lambda x: False)
+        GT = Same(gts[0][2][0]) if len(gts) == 1 else (lambda x: False)
         e = [e for e in gt.edges if e.cond[0] == "truth" and e.cond[2] is False and set(rd.kind for rd in e.leads) == {"err"}
-             and gt.dominates_accepts(e) and Mentions(Var("less_than_modulus"))(e.cond[1])]
+             and gt.dominates_accepts(e) and Mentions(LT)(e.cond[1])]
         good = bool(e) and all("ModulusOverflow" in fmt(rd.expr) for rd in e[0].leads)
         req(ctx, rule, "%s:%s:overflow-error" % (rule, ft.id), good, "not (value < modulus) -> Err(ModulusOverflow)",
             "Field255::try_from_bytes does not refuse values >= modulus with ModulusOverflow", loc=ft.loc)
         # the strict comparison: less_than is fed by ct_lt only and excludes once greater was seen
-        lt = [c for bi, c in calls_named(ctx, ft, "bitor_assign") if Var("less_than_modulus")(c[2][0])]
-        good = len(lt) == 1 and Mentions(Call("ct_lt"))(lt[0][2][1]) and not Mentions(Call("ct_eq"))(lt[0][2][1]) and \
-            Mentions(Var("greater_than_modulus"))(lt[0][2][1])
+        lt = lts
+        good = len(lt) == 1 and len(gts) == 1 and Mentions(Call("ct_lt"))(lt[0][2][1]) and not Mentions(Call("ct_eq"))(lt[0][2][1]) and \
+            Mentions(GT)(lt[0][2][1]) and Mentions(LT)(gts[0][2][1])
         cmpsrc = calls_named(ctx, ft, "zip")
         good = good and cmpsrc and Mentions(Call("rev"))(cmpsrc[-1][1]) and adapters_in(cmpsrc[-1][1]) == ["rev", "rev"]
         req(ctx, rule, "%s:%s:strict-less" % (rule, ft.id), good, "less_than_modulus accumulates ct_lt over all bytes, most significant first",
